@@ -1,8 +1,10 @@
 (* C14 - executable model of the built-in validators and of convert_value.  No proofs here.
 
    Every shape parameter (comparison operators and flag polarities, domain tests, the strip rule,
-   loop shapes, handler tables, literal sets, the normalisation chain, REGEX_EMAIL) is read from
-   Gen/Validators.v, which the translator regenerates from /repo on every run.
+   loop shapes, handler tables, literal sets, the normalisation chain, REGEX_EMAIL) is a field of the
+   record `shapes`; `gen_shapes` collects the values of Gen/Validators.v, which the translator
+   regenerates from /repo on every run.  The theorems are proved for every `shapes` that satisfies the
+   boolean predicate `shapes_good` (Proofs/ValidatorsGood.v); Props/C14.v checks it on `gen_shapes`.
    The model says what the code does, including what it does outside the documented input domain
    where that is simple (TypeError from comparing a non-number ...).                         *)
 From Coq Require Import List ZArith Bool SpecFloat.
@@ -30,23 +32,86 @@ Inductive validator : Type :=
 | WForEach (cs : list validator)
 | WComposite (cs : list validator).
 
-Definition VE : exn := Gen.Validators.raise_exception_cls.
+(* ---------- everything the translator reads from the source, as one record ------------------------ *)
+Record shapes : Type := {
+  s_vexc : exn;                           (* class raised by Validator.raise_exception *)
+  s_h_validate_param : htable;
+  s_min_tests : list (cmpop * bool);      (* (op, flag polarity): `value <op> self._value and [not] include_boundary` rejects *)
+  s_min_dom : domkind;
+  s_max_tests : list (cmpop * bool);
+  s_max_dom : domkind;
+  s_minlen_dom : domkind;
+  s_minlen_op : cmpop;                    (* len(value) <op> self._length rejects *)
+  s_maxlen_dom : domkind;
+  s_maxlen_op : cmpop;
+  s_notempty : notempty_shape;
+  s_composite : composite_shape;
+  s_foreach : foreach_shape;
+  s_h_is_uuid : htable;
+  s_h_is_enum : htable;
+  s_h_iso : htable;
+  s_unix_dom : domkind;
+  s_h_unix_float : htable;
+  s_h_unix_add : htable;
+  s_email_mode : matchmode;
+  s_regex_email : re;
+  s_matchpattern_mode : matchmode;
+  s_cv_norm : list normop;
+  s_cv_true : list str;
+  s_cv_false : list str;
+  s_cv_bool_else : exn;
+  s_h_convert : htable
+}.
+
+(* the shapes of the current source (Gen/Validators.v is regenerated on every run) *)
+Definition gen_shapes : shapes := {|
+  s_vexc := Gen.Validators.raise_exception_cls;
+  s_h_validate_param := Gen.Validators.h_validate_param;
+  s_min_tests := Gen.Validators.min_tests;
+  s_min_dom := Gen.Validators.min_dom;
+  s_max_tests := Gen.Validators.max_tests;
+  s_max_dom := Gen.Validators.max_dom;
+  s_minlen_dom := Gen.Validators.minlen_dom;
+  s_minlen_op := Gen.Validators.minlen_op;
+  s_maxlen_dom := Gen.Validators.maxlen_dom;
+  s_maxlen_op := Gen.Validators.maxlen_op;
+  s_notempty := Gen.Validators.notempty_cfg;
+  s_composite := Gen.Validators.composite_cfg;
+  s_foreach := Gen.Validators.foreach_cfg;
+  s_h_is_uuid := Gen.Validators.h_is_uuid;
+  s_h_is_enum := Gen.Validators.h_is_enum;
+  s_h_iso := Gen.Validators.h_iso;
+  s_unix_dom := Gen.Validators.unix_dom;
+  s_h_unix_float := Gen.Validators.h_unix_float;
+  s_h_unix_add := Gen.Validators.h_unix_add;
+  s_email_mode := Gen.Validators.email_mode;
+  s_regex_email := Gen.Validators.regex_email;
+  s_matchpattern_mode := Gen.Validators.matchpattern_mode;
+  s_cv_norm := Gen.Validators.cv_norm;
+  s_cv_true := Gen.Validators.cv_true;
+  s_cv_false := Gen.Validators.cv_false;
+  s_cv_bool_else := Gen.Validators.cv_bool_else;
+  s_h_convert := Gen.Validators.h_convert
+|}.
 
 (* ---------- the families ------------------------------------------------------------------------- *)
-Definition bound_validate (dom : domkind) (tests : list (cmpop * bool)) (bound : value) (incl : bool)
+(* if value <op1> bound and <flag1>: reject   elif value <op2> bound and <flag2>: reject ...; return value
+   (the comparison is evaluated first and may raise TypeError) *)
+Fixpoint bound_tests (VE : exn) (tests : list (cmpop * bool)) (bound : value) (incl : bool) (v : value)
+    : outcome value :=
+  match tests with
+  | [] => Ok v
+  | t :: ts' =>
+      match py_cmp (fst t) v bound with
+      | Raise e => Raise e
+      | Ok b => if b && Bool.eqb incl (snd t) then Raise VE else bound_tests VE ts' bound incl v
+      end
+  end.
+Definition bound_validate (VE : exn) (dom : domkind) (tests : list (cmpop * bool)) (bound : value) (incl : bool)
     (v : value) : outcome value :=
-  if negb (in_dom dom v) then Raise VE else
-  (fix go (ts : list (cmpop * bool)) : outcome value :=
-     match ts with
-     | [] => Ok v
-     | t :: ts' =>
-         match py_cmp (fst t) v bound with
-         | Raise e => Raise e
-         | Ok b => if b && Bool.eqb incl (snd t) then Raise VE else go ts'
-         end
-     end) tests.
+  if negb (in_dom dom v) then Raise VE else bound_tests VE tests bound incl v.
 
-Definition length_validate (dom : domkind) (op : cmpop) (n : Z) (v : value) : outcome value :=
+Definition length_validate (VE : exn) (dom : domkind) (op : cmpop) (n : Z) (v : value) : outcome value :=
   if negb (in_dom dom v) then Raise VE else
   match py_len v with
   | None => Raise TypeErrorC
@@ -55,7 +120,7 @@ Definition length_validate (dom : domkind) (op : cmpop) (n : Z) (v : value) : ou
 
 Definition is_nil {A} (l : list A) : bool := match l with [] => true | _ => false end.
 
-Definition notempty_validate (c : notempty_shape) (strip : bool) (v : value) : outcome value :=
+Definition notempty_validate (VE : exn) (c : notempty_shape) (strip : bool) (v : value) : outcome value :=
   match v with
   | VStr s =>
       let t := py_strip s in
@@ -74,11 +139,12 @@ Definition notempty_validate (c : notempty_shape) (strip : bool) (v : value) : o
       else Raise VE
   end.
 
-Definition email_validate (pat : option re) (pp : ppkind) (v : value) : outcome value :=
+Definition email_validate (VE : exn) (mode : matchmode) (dflt : re) (pat : option re) (pp : ppkind) (v : value)
+    : outcome value :=
   match v with
   | VStr s =>
-      let r := match pat with Some r => r | None => Gen.Validators.regex_email end in
-      if re_test Gen.Validators.email_mode r s then Ok (pp_apply pp s) else Raise VE
+      let r := match pat with Some r => r | None => dflt end in
+      if re_test mode r s then Ok (pp_apply pp s) else Raise VE
   | _ => Raise TypeErrorC
   end.
 
@@ -113,13 +179,49 @@ Definition isinstance_t (v : value) (t : ttype) : bool :=
   end.
 
 
+(* ---------- the loops of Composite / ForEach (the child semantics is a parameter) ------------------ *)
+Section Loops.
+  Variable A : Type.
+  Variable child : A -> value -> outcome value.
+  (* for validator in children: [cur =] validator.validate(cur)   -> the last `cur` *)
+  Fixpoint run_children (threads : bool) (cs : list A) (cur : value) : outcome value :=
+    match cs with
+    | [] => Ok cur
+    | c :: cs' =>
+        match child c cur with
+        | Raise e => Raise e
+        | Ok r => run_children threads cs' (if threads then r else cur)
+        end
+    end.
+End Loops.
+Arguments run_children {A} child threads cs cur.
+
+(* for item in value: item = chain(item); results.append(item) [; return results] *)
+Fixpoint each_item (chain : value -> outcome value) (return_in_loop : bool) (items : list value)
+    : outcome (list value) :=
+  match items with
+  | [] => Ok []
+  | it :: items' =>
+      match chain it with
+      | Raise e => Raise e
+      | Ok r =>
+          if return_in_loop then Ok [r]
+          else match each_item chain return_in_loop items' with
+               | Raise e => Raise e
+               | Ok rs => Ok (r :: rs)
+               end
+      end
+  end.
+
 Section Sem.
+  Variable S : shapes.
   Variable O : oracles.
+  Local Notation VE := (s_vexc S).
 
   Definition uuid_validate (convert : bool) (v : value) : outcome value :=
     match o_uuid O (py_str O v) with
     | Ok u => Ok (if convert then u else v)
-    | Raise e => handle VE Gen.Validators.h_is_uuid e
+    | Raise e => handle VE (s_h_is_uuid S) e
     end.
 
   (* int(value) where value may also be a member of the IntEnum itself *)
@@ -146,83 +248,54 @@ Section Sem.
       else enum_lookup members v1 in
     match looked with
     | Ok m => Ok (if convert then m else v1)
-    | Raise e => handle VE Gen.Validators.h_is_enum e
+    | Raise e => handle VE (s_h_is_enum S) e
     end.
 
   Definition match_validate (pat : re) (v : value) : outcome value :=
-    if re_test Gen.Validators.matchpattern_mode pat (py_str O v) then Ok v else Raise VE.
+    if re_test (s_matchpattern_mode S) pat (py_str O v) then Ok v else Raise VE.
 
   Definition iso_validate (v : value) : outcome value :=
     match o_fromiso O v with
     | Ok d => Ok d
-    | Raise e => handle VE Gen.Validators.h_iso e
+    | Raise e => handle VE (s_h_iso S) e
     end.
 
   Definition unix_validate (v : value) : outcome value :=
-    if negb (in_dom Gen.Validators.unix_dom v) then Raise VE else
+    if negb (in_dom (s_unix_dom S) v) then Raise VE else
     match py_float O v with
-    | Raise e => handle VE Gen.Validators.h_unix_float e
+    | Raise e => handle VE (s_h_unix_float S) e
     | Ok f =>
         match o_epoch_plus O f with
         | Ok d => Ok d
-        | Raise e => handle VE Gen.Validators.h_unix_add e
+        | Raise e => handle VE (s_h_unix_add S) e
         end
     end.
 
   Fixpoint validate (w : validator) (v : value) {struct w} : outcome value :=
     match w with
-    | WMin b incl => bound_validate Gen.Validators.min_dom Gen.Validators.min_tests b incl v
-    | WMax b incl => bound_validate Gen.Validators.max_dom Gen.Validators.max_tests b incl v
-    | WMinLen n => length_validate Gen.Validators.minlen_dom Gen.Validators.minlen_op n v
-    | WMaxLen n => length_validate Gen.Validators.maxlen_dom Gen.Validators.maxlen_op n v
-    | WNotEmpty strip => notempty_validate Gen.Validators.notempty_cfg strip v
-    | WEmail pat pp => email_validate pat pp v
+    | WMin b incl => bound_validate VE (s_min_dom S) (s_min_tests S) b incl v
+    | WMax b incl => bound_validate VE (s_max_dom S) (s_max_tests S) b incl v
+    | WMinLen n => length_validate VE (s_minlen_dom S) (s_minlen_op S) n v
+    | WMaxLen n => length_validate VE (s_maxlen_dom S) (s_maxlen_op S) n v
+    | WNotEmpty strip => notempty_validate VE (s_notempty S) strip v
+    | WEmail pat pp => email_validate VE (s_email_mode S) (s_regex_email S) pat pp v
     | WIsUuid convert => uuid_validate convert v
     | WIsEnum ms ie convert upper => enum_validate ms ie convert upper v
     | WMatch pat => match_validate pat v
     | WIso => iso_validate v
     | WUnix => unix_validate v
     | WComposite cs =>
-        (fix run (cs : list validator) (cur : value) : outcome value :=
-           match cs with
-           | [] => Ok (if co_returns_input Gen.Validators.composite_cfg then v else cur)
-           | c :: cs' =>
-               match validate c cur with
-               | Raise e => Raise e
-               | Ok r => run cs' (if co_threads Gen.Validators.composite_cfg then r else cur)
-               end
-           end) cs v
+        match run_children validate (co_threads (s_composite S)) cs v with
+        | Raise e => Raise e
+        | Ok cur => Ok (if co_returns_input (s_composite S) then v else cur)
+        end
     | WForEach cs =>
-        if negb (in_dom (fe_dom Gen.Validators.foreach_cfg) v) then Raise VE else
+        if negb (in_dom (fe_dom (s_foreach S)) v) then Raise VE else
         match iter_items v with
         | None => Raise TypeErrorC
         | Some items =>
-            let chain :=
-              (fix chain (cs : list validator) (it : value) : outcome value :=
-                 match cs with
-                 | [] => Ok it
-                 | c :: cs' =>
-                     match validate c it with
-                     | Raise e => Raise e
-                     | Ok r => chain cs' (if fe_threads Gen.Validators.foreach_cfg then r else it)
-                     end
-                 end) cs in
-            match
-              (fix each (items : list value) : outcome (list value) :=
-                 match items with
-                 | [] => Ok []
-                 | it :: items' =>
-                     match chain it with
-                     | Raise e => Raise e
-                     | Ok r =>
-                         if fe_return_in_loop Gen.Validators.foreach_cfg then Ok [r]
-                         else match each items' with
-                              | Raise e => Raise e
-                              | Ok rs => Ok (r :: rs)
-                              end
-                     end
-                 end) items
-            with
+            match each_item (run_children validate (fe_threads (s_foreach S)) cs)
+                            (fe_return_in_loop (s_foreach S)) items with
             | Ok rs => Ok (VList rs)
             | Raise e => Raise e
             end
@@ -233,7 +306,7 @@ Section Sem.
   Definition validate_param (w : validator) (v : value) : outcome value :=
     match validate w v with
     | Ok r => Ok r
-    | Raise e => handle VE Gen.Validators.h_validate_param e
+    | Raise e => handle VE (s_h_validate_param S) e
     end.
 
   (* ---------- convert_value ---------------------------------------------------------------------- *)
@@ -279,24 +352,24 @@ Section Sem.
 
   Definition convert_value (v : value) (t : ttype) : outcome value :=
     if isinstance_t v t then Ok v else
-    let s := normalise Gen.Validators.cv_norm v in
+    let s := normalise (s_cv_norm S) v in
     match t with
     | TBool =>
-        if str_in s Gen.Validators.cv_true then Ok (VBool true)
-        else if str_in s Gen.Validators.cv_false then Ok (VBool false)
-        else Raise Gen.Validators.cv_bool_else
+        if str_in s (s_cv_true S) then Ok (VBool true)
+        else if str_in s (s_cv_false S) then Ok (VBool false)
+        else Raise (s_cv_bool_else S)
     | TList => Ok (VList (map (fun it => VStr (py_strip it)) (split_on 44 s)))
     | TDict => let d := dict_of_items (split_on 44 s) in Ok (VDict (map VStr (fst d)) (map VStr (snd d)))
     | TStr => Ok (VStr s)
     | TInt =>
         match py_int_of_str O s with
         | Ok z => Ok (VInt z)
-        | Raise e => handle VE Gen.Validators.h_convert e
+        | Raise e => handle VE (s_h_convert S) e
         end
     | TFloat =>
         match o_float_of_str O s with
         | Ok f => Ok (VFloat f)
-        | Raise e => handle VE Gen.Validators.h_convert e
+        | Raise e => handle VE (s_h_convert S) e
         end
     end.
 End Sem.
